@@ -614,7 +614,77 @@ def _normalise_control():
     tree = _ast.parse(_RECORD_CONTROL + "    def leak(self):\n        return self._acc\n")
     if normalise_module(tree):
         return False  # the record escapes as a whole: left alone
+    # tables, explicit async protocol, private bases (round 8)
+    tree = _ast.parse(_TABLE_CONTROL)
+    normalise_module(tree)
+    out = _ast.unparse(tree)
+    want = ["if self.u < self.lo:", "self.d = self.d - k", "elif self.a > self.hi:", "self.d = self.d + k", "else:", "self.d = 0", "self.ev.clear()", "self.run.set()", "async for t in rx:", "async with open_nursery() as n:"]
+    if not all(w in out for w in want) or "for applies" in out or "__anext__" in out or "__aexit__" in out:
+        return False
+    # a loop with a break structure that is not the dispatch shape is left alone
+    tree = _ast.parse("T = ((1, 2), (3, 4))\ndef f(x):\n    for a, b in T:\n        if a == x:\n            continue\n        x += b\n    return x\n")
+    normalise_module(tree)
+    if "for a, b in T" not in _ast.unparse(tree):
+        return False
+    from sa.normalise import flatten_private_bases
+
+    mods = {"m": (_ast.parse(_BASE_CONTROL), False)}
+    notes = flatten_private_bases(mods)
+    out = _ast.unparse(mods["m"][0])
+    if "class _Mix" in out or "class C(Base):" not in out or out.count("def helper") != 1 or "return 2" in out or out.count("def shadowed") != 2 or not notes:
+        return False
     return True
+
+
+_TABLE_CONTROL = """
+import operator
+_ADJ = (
+    (lambda s: s.u < s.lo, operator.isub),
+    (lambda s: s.a > s.hi, operator.iadd),
+)
+class K:
+    _ON = (("ev", "clear"), ("run", "set"))
+    def step(self, k):
+        for applies, adjust in _ADJ:
+            if applies(self):
+                self.d = adjust(self.d, k)
+                break
+        else:
+            self.d = 0
+        for name, op in self._ON:
+            getattr(getattr(self, name), op)()
+    async def pump(self, rx):
+        it = rx.__aiter__()
+        while True:
+            try:
+                t = await it.__anext__()
+            except StopAsyncIteration:
+                break
+            self.seen(t)
+        mgr = open_nursery()
+        n = await mgr.__aenter__()
+        try:
+            n.start_soon(self.seen)
+        except BaseException as exc:
+            if not await mgr.__aexit__(type(exc), exc, exc.__traceback__):
+                raise
+        else:
+            await mgr.__aexit__(None, None, None)
+"""
+
+_BASE_CONTROL = """
+class Base:
+    def shadowed(self):
+        return 0
+class _Mix(Base):
+    def helper(self):
+        return self.x
+    def shadowed(self):
+        return 2
+class C(_Mix):
+    def shadowed(self):
+        return 1
+"""
 
 
 _RECORD_CONTROL = """
